@@ -2,7 +2,8 @@
    Property theorems only.
    Models: model/KRand.v (script programs with routine random generators, conditions, flow variables,
    pause/resume on top of KProg/KNrt: one segment executor shared by both modes; xnrt_* = NrtMain /
-   ClockScheduler; xrt_* = the real-time transition system: oracle = start instant t0 + a sequence of
+   ClockScheduler (dd = true: the repaired code, one pending wake-up per routine and clock as in the real-time
+   queues -- obs_nrt; dd = false: the code as found -- obs_nrt_as_found); xrt_* = the real-time transition system: oracle = start instant t0 + a sequence of
    (routine whose task its clock thread performs next, physical clock reading)), model/KAgree.v (obs =
    time-sorted (due time - start, bundle) sequence, resumption times - start, logged values, endings).
    gen : seed -> requests served before -> request -> value  is ANY function (random.Random is one).
@@ -17,7 +18,7 @@
                                                          a condition, a flow variable, a pause/resume target
                                                          or a tempo map, at different logical times, are
                                                          performed in logical order)
-       forall rid, obs_rout t0 (xs (xrt_run gen off p t0 sched)) rid ~ obs_rout 0 (xnrt_loop gen p fuel (xnrt_init p)) rid'
+       forall rid, obs_rout t0 (xs (xrt_run gen off p t0 sched)) rid ~ obs_rout 0 (xnrt_loop gen dd p fuel (xnrt_init p)) rid'
        (rid' = the routine with the same creation path) and the bundle multisets are equal.
    What is missing for it: commutation of wake-ups of non-communicating routines (a diamond lemma on
    xrt_step) and the tempo-map part of the simulation (keys in beats versus seconds through retime).
@@ -38,6 +39,23 @@ Theorem rt_nrt_agree_partial : forall gen off p t0 sched,
   xs_bad (xrt_run gen off p t0 sched) = false ->
   obs_rt gen off p t0 sched = obs_nrt gen p (length sched).
 Proof. exact rt_nrt_agree_sys. Qed.
+
+(* The statement is FALSE of the non-real-time code AS FOUND (obs_nrt_as_found): every sched() wraps the
+   routine in a new ClockTask, so a routine that is scheduled while it already has a pending wake-up
+   (pause(); resume() before the wake-up; a signal reaching a routine that was resumed meanwhile) is
+   woken twice, while the real-time clocks' queues keep one entry per task.  Minimal program: the root
+   plays a child, pauses it and resumes it at once; the child yields 1/4 twice and sends a bundle after
+   each: as found it sends at 0 and 1/4, in real time (and repaired) at 1/4 and 1/2.
+   Repair: build/proposed_fixes/C10_nrt_one_pending_wakeup.diff *)
+Theorem rt_nrt_agree_as_found_refuted :
+  xnrt_completed kgen false dup_prog 10 = true /\ xnrt_completed kgen true dup_prog 10 = true /\
+  xs_bad (xrt_run kgen 0 dup_prog 0 dup_sched) = false /\ n_q (x_n (xs (xrt_run kgen 0 dup_prog 0 dup_sched))) = [] /\
+  ob_resumes (obs_nrt_as_found kgen dup_prog 10) = [rs 0 0 0; rs 1 0 0; rs 1 1 0; rs 1 2 (1#4)] /\
+  map fst (ob_bundles (obs_nrt_as_found kgen dup_prog 10)) = [0; 1#4] /\
+  ob_resumes (obs_rt kgen 0 dup_prog 0 dup_sched) = [rs 0 0 0; rs 1 0 0; rs 1 1 (1#4); rs 1 2 (1#2)] /\
+  map fst (ob_bundles (obs_rt kgen 0 dup_prog 0 dup_sched)) = [1#4; 1#2] /\
+  obs_rt kgen 0 dup_prog 0 dup_sched = obs_nrt kgen dup_prog 10.
+Proof. exact nrt_as_found_refuted. Qed.
 
 (* timetags, relative to the timetag of the start instant: equal up to one unit (exact on dyadic data) *)
 Theorem timetag_relative_to_start_within_one_unit : forall off T t0 l, 0 <= T -> 0 <= t0 -> 0 <= l ->
@@ -61,15 +79,15 @@ Proof. exact rt_oracle_independent. Qed.
    order, are the stream of ITS seed over the requests IT served -- whichever routines share it
    (inheritance) and whatever is drawn from other objects in between. *)
 Theorem inherited_generator_interleaves_deterministically : forall gen p,
-  (forall fuel g seed hist,
-     nth_error (x_gens (xnrt_loop gen p fuel (xnrt_init p))) g = Some (seed, hist) ->
-     draws_of g (x_vals (xnrt_loop gen p fuel (xnrt_init p))) = stream gen seed hist) /\
+  (forall dd fuel g seed hist,
+     nth_error (x_gens (xnrt_loop gen dd p fuel (xnrt_init p))) g = Some (seed, hist) ->
+     draws_of g (x_vals (xnrt_loop gen dd p fuel (xnrt_init p))) = stream gen seed hist) /\
   (forall off t0 sched g seed hist,
      nth_error (x_gens (xs (xrt_run gen off p t0 sched))) g = Some (seed, hist) ->
      draws_of g (x_vals (xs (xrt_run gen off p t0 sched))) = stream gen seed hist).
 Proof.
   intros gen p. split.
-  - intros fuel g seed hist. apply gen_stream_nrt.
+  - intros dd fuel g seed hist. apply gen_stream_nrt.
   - intros off t0 sched g seed hist. apply gen_stream_rt.
 Qed.
 
@@ -89,7 +107,7 @@ Proof. exact x_seed_fresh. Qed.
    gen seed [] r0, gen seed [r0] r1, ... -- for gen s h _ := f s (length h): f seed 0, f seed 1, ... --
    whatever the other routines draw. *)
 Theorem own_seed_stream_independent : forall gen p rid g seed hist,
-  (forall fuel, let st := xnrt_loop gen p fuel (xnrt_init p) in
+  (forall dd fuel, let st := xnrt_loop gen dd p fuel (xnrt_init p) in
      nth_error (x_gens st) g = Some (seed, hist) -> keeps_to_itself rid g (x_vals st) ->
      draws_by rid (x_vals st) = stream gen seed hist) /\
   (forall off t0 sched, let st := xs (xrt_run gen off p t0 sched) in
@@ -97,7 +115,7 @@ Theorem own_seed_stream_independent : forall gen p rid g seed hist,
      draws_by rid (x_vals st) = stream gen seed hist).
 Proof.
   intros gen p rid g seed hist. split.
-  - intros fuel st Hg Hk. subst st. rewrite (draws_by_of _ _ _ Hk). apply gen_stream_nrt. exact Hg.
+  - intros dd fuel st Hg Hk. subst st. rewrite (draws_by_of _ _ _ Hk). apply gen_stream_nrt. exact Hg.
   - intros off t0 sched st Hg Hk. subst st. rewrite (draws_by_of _ _ _ Hk). apply gen_stream_rt. exact Hg.
 Qed.
 
@@ -110,10 +128,10 @@ Qed.
 Theorem rt_nrt_cross_clock_refuted :
   let s := xrt_run kgen 0 cross_prog 0 cross_sched in
   xs_bad s = false /\ xs_early s = false /\ n_q (x_n (xs s)) = [] /\
-  xnrt_completed kgen cross_prog 10 = true /\
+  xnrt_completed kgen true cross_prog 10 = true /\
   ob_vals (obs_rt kgen 0 cross_prog 0 cross_sched) = [VDraw 2 1 1 0 5000; VDraw 1 1 1 0 5001] /\
   ob_vals (obs_nrt kgen cross_prog 10) = [VDraw 1 1 1 0 5000; VDraw 2 1 1 0 5001] /\
-  (forall rid, ob_resumes (obs_rout 0 (xs s) rid) = ob_resumes (obs_rout 0 (xnrt_loop kgen cross_prog 10 (xnrt_init cross_prog)) rid)) /\
+  (forall rid, ob_resumes (obs_rout 0 (xs s) rid) = ob_resumes (obs_rout 0 (xnrt_loop kgen true cross_prog 10 (xnrt_init cross_prog)) rid)) /\
   obs_of 0 (xs (xrt_ordered kgen 0 cross_prog 10 (xrt_init cross_prog 0))) = obs_nrt kgen cross_prog 10.
 Proof. exact cross_clock_refuted. Qed.
 
@@ -124,7 +142,7 @@ Example c10_class_inhabited : sys_only sys_prog.
 Proof. exact sys_prog_ok. Qed.
 Example c10_example :
   let s := xrt_run kgen 7 sys_prog 3 sys_sched in
-  xs_bad s = false /\ n_q (x_n (xs s)) = [] /\ xnrt_completed kgen sys_prog 10 = true /\
+  xs_bad s = false /\ n_q (x_n (xs s)) = [] /\ xnrt_completed kgen true sys_prog 10 = true /\
   length (ob_bundles (obs_nrt kgen sys_prog 10)) = 3%nat /\
   ob_vals (obs_nrt kgen sys_prog 10) =
     [VDraw 0 0 1 0 7000; VDraw 0 0 1 1 7001; VDraw 1 0 1 2 7002; VDraw 2 0 2 4 9000; VDraw 2 1 2 5 9001;
@@ -133,9 +151,9 @@ Proof. exact sys_example. Qed.
 Example c10_agree_instance : obs_rt kgen 7 sys_prog 3 sys_sched = obs_nrt kgen sys_prog 10.
 Proof. apply (rt_nrt_agree_partial kgen 7 sys_prog 3 sys_sched sys_prog_ok); [discriminate|discriminate|]. exact (proj1 sys_example). Qed.
 Example c10_own_seed_instance :
-  draws_by 2 (x_vals (xnrt_loop kgen sys_prog 10 (xnrt_init sys_prog))) = stream kgen 9 [4; 5]%Z.
+  draws_by 2 (x_vals (xnrt_loop kgen true sys_prog 10 (xnrt_init sys_prog))) = stream kgen 9 [4; 5]%Z.
 Proof.
-  apply (proj1 (own_seed_stream_independent kgen sys_prog 2 2 9%Z [4; 5]%Z) 10%nat); [reflexivity|exact sys_keeps].
+  apply (proj1 (own_seed_stream_independent kgen sys_prog 2 2 9%Z [4; 5]%Z) true 10%nat); [reflexivity|exact sys_keeps].
 Qed.
 
 Print Assumptions rt_nrt_agree_partial.
